@@ -63,9 +63,13 @@ def configs(tier, seed):
     # E = 3, rare / absent common
     for agg in ("count", "mean"):
         out.append(_base(3, [[]], 3, [2], agg, weights="array", ignore=True))
-    # D = 0
+    # D = 0 (dimensionless cubes): every weight form
     for agg in AGGS:
-        out.append(_base(2, [], 1, [], agg, weights="array" if agg != "count" else "none", fmt="nan"))
+        for wf in wforms:
+            i += 1
+            if tier == "quick" and wf == "pair" and agg in ("valid_count", "sum"):
+                continue
+            out.append(_base(2, [], 1, [], agg, weights=wf, fmt=fmts[i % 2], ignore=bool(i % 2), fact=facts[i % 3] if agg != "count" else "none"))
     if tier == "thorough":
         for agg in AGGS:
             for wf in wforms:
@@ -98,8 +102,13 @@ def explore(cfg, eng, ctx, sides=("ccube", "xcube")):
 
     def path():
         data = aggs.Data(eng, cfg)
-        if "F16-isclose-band" in ctx.excl and data.wt is not None and cfg.get("wreal"):
-            pass
+        if "F16-isclose-band" in ctx.excl and data.wt is not None and cfg.get("wreal") and agg == "mean" and "ccube" in sides:
+            # known finding F16: exclude exactly its region (some cell with 0 < valid weight sum <= 1e-8); everything else stays checked
+            ish0 = ishape_of(cfg) or tuple(data.Es)
+            for cell in itertools.product(*[range(e) for e in ish0]):
+                for k in range(data.K):
+                    _, _, wsum = data.cell_oracle("mean", ignore, [() for _ in cfg["dims"]], cell, k)
+                    eng.assume(z3.Or(wsum <= 0, wsum > z3.RealVal("1e-8")))
 
         def builder(model):
             c = data.case(model)
